@@ -109,6 +109,9 @@ pub struct SecondaryStorage {
 
     /// Indexes of the current storage engine
     indexes: Mutex<InMemoryIndexes>,
+
+    /// Serialises `CREATE TABLE` (existence check + manifest record + catalog update)
+    ddl_lock: Mutex<()>,
 }
 
 impl SecondaryStorage {
